@@ -91,6 +91,49 @@ Section Driver.
           end
     end.
 
+
+  (** primitive-by-primitive observation (level L0): the Gallina definition of one Rust primitive applied to
+      wire-format operands; the harness compares the line with what the real primitive returns *)
+  Definition show_b (b : bool) : string := if b then "1" else "0".
+  Definition show_oZ (o : option Z) : string := match o with Some z => show_Z z | None => "none" end.
+  Definition show_od (o : option dec) : string := match o with Some d => show_dec d | None => "skip" end.
+  Definition show_cmp (c : comparison) : string := match c with Lt => "-1" | Eq => "0" | Gt => "1" end.
+
+  Definition prim (op a b : string) : string :=
+    let f1 (g : f64 -> string) := match read_f64 a with Some x => g x | None => bad end in
+    let f2 (g : f64 -> f64 -> string) := match read_f64 a, read_f64 b with Some x, Some y => g x y | _, _ => bad end in
+    let z1 (g : Z -> string) := match read_Z a with Some x => g x | None => bad end in
+    let z2 (g : Z -> Z -> string) := match read_Z a, read_Z b with Some x, Some y => g x y | _, _ => bad end in
+    let d1' (g : dec -> string) := match read_dec_val a with Some x => g x | None => bad end in
+    let d2' (g : dec -> dec -> string) := match read_dec_val a, read_dec_val b with Some x, Some y => g x y | _, _ => bad end in
+    let is := String.eqb op in
+    if is "add" then f2 (fun x y => show_f64 (fadd x y)) else if is "sub" then f2 (fun x y => show_f64 (fsub x y))
+    else if is "mul" then f2 (fun x y => show_f64 (fmul x y)) else if is "div" then f2 (fun x y => show_f64 (fdiv x y))
+    else if is "rem" then f2 (fun x y => show_f64 (fmod x y))
+    else if is "sqrt" then f1 (fun x => show_f64 (fsqrt x)) else if is "neg" then f1 (fun x => show_f64 (fneg x))
+    else if is "abs" then f1 (fun x => show_f64 (fabs x)) else if is "floor" then f1 (fun x => show_f64 (ffloor x))
+    else if is "ceil" then f1 (fun x => show_f64 (fceil x)) else if is "round" then f1 (fun x => show_f64 (fround x))
+    else if is "trunc" then f1 (fun x => show_f64 (ftrunc x)) else if is "signum" then f1 (fun x => show_f64 (fsignum x))
+    else if is "lt" then f2 (fun x y => show_b (flt x y)) else if is "le" then f2 (fun x y => show_b (fle x y))
+    else if is "eq" then f2 (fun x y => show_b (feq x y))
+    else if is "tcmp" then f2 (fun x y => show_cmp (Z.compare (total_key x) (total_key y)))
+    else if is "f2i" then f1 (fun x => show_Z (f64_to_i64 x)) else if is "f2i32" then f1 (fun x => show_Z (f64_to_i32 x))
+    else if is "f2usize" then f1 (fun x => show_Z (f64_to_usize x))
+    else if is "i2f" then z1 (fun x => show_f64 (f64_of_Z x))
+    else if is "iadd" then z2 (fun x y => show_oZ (checked_add x y)) else if is "isub" then z2 (fun x y => show_oZ (checked_sub x y))
+    else if is "imul" then z2 (fun x y => show_oZ (checked_mul x y)) else if is "idiv" then z2 (fun x y => show_oZ (checked_div x y))
+    else if is "ineg" then z1 (fun x => show_oZ (checked_neg x)) else if is "iabs" then z1 (fun x => show_oZ (checked_abs x))
+    else if is "irem" then z2 (fun x y => if (y =? 0)%Z then "none" else show_Z (wrapping_rem x y))
+    else if is "iremeuclid" then z2 (fun x y => show_oZ (checked_rem_euclid x y))
+    else if is "ipow" then z2 (fun x y => if ((0 <=? y) && (y <=? u32_max))%Z then show_oZ (checked_pow x y) else "skip")
+    else if is "ishl" then z2 (fun x y => if ((0 <=? y) && (y <=? 63))%Z then show_oZ (shl_fit x y) else "skip")
+    else if is "ishr" then z2 (fun x y => if ((0 <=? y) && (y <=? 63))%Z then show_Z (shr x y) else "skip")
+    else if is "isignum" then z1 (fun x => show_Z (signum x))
+    else if is "dadd" then d2' (fun x y => show_od (dec_add_exact x y)) else if is "dsub" then d2' (fun x y => show_od (dec_sub_exact x y))
+    else if is "dmul" then d2' (fun x y => show_od (dec_mul_exact x y)) else if is "dneg" then d1' (fun x => show_dec (dec_neg x))
+    else if is "dcmp" then d2' (fun x y => show_cmp (dec_cmp x y))
+    else bad.
+
   Definition tab : ascii := ascii_of_N 9.
 
   Definition run_line (line : string) : string :=
@@ -110,6 +153,7 @@ Section Driver.
         else if String.eqb ev "decimal" then
           go lt_decimal (conv_dec the_declib) pt_decimal (EvalDec.eval_dec the_declib)
              read_dec_val show_dec "Number" mode ph ex
+        else if String.eqb ev "prim" then prim mode ph ex
         else if String.eqb ev "complex" then
           go lt_complex conv_cpx pt_complex (EvalCpx.eval_cpx the_cpxlib) read_cpx show_cpx "Number" mode ph ex
         else bad
